@@ -6,7 +6,7 @@
    The per-protocol send->receive round trips are theorems about the packet models of Model.v
    (sender's datagram = what the node passes to sendto; receiver = node with one registered handler). *)
 From OlaBase Require Import Bytes.
-From C07 Require Import Gen Model ModelNet2 ModelStream ModelMulti ListLemmas RleProofs RleMore NetProofs NetProofs2 StreamProofs MultiProofs.
+From C07 Require Import Gen Model ModelNet2 ModelStream ModelMulti ModelHist ListLemmas RleProofs RleMore NetProofs NetProofs2 StreamProofs MultiProofs HistProofs.
 Local Open Scope N_scope.
 
 (* the constants the statements below spell out as literals *)
@@ -162,6 +162,45 @@ Theorem c07_e131_multi_universe : forall cid name prio hu ip ops old,
 Proof. intros. apply multi_universe; assumption. Qed.
 Print Assumptions c07_e131_multi_universe.
 
+(* Art-Net receiver with any number of output ports, on the same or on different port addresses, each
+   with its own buffer: the ArtDmx datagram for (net, addr) updates EVERY port registered on that
+   address with the (even-padded) frame and leaves every other port alone. *)
+Theorem c07_artnet_ports : forall seq phys addr net f (ports : list (N * buf)),
+  1 <= len f -> len f <= 512 -> addr < 256 -> net < 128 ->
+  exists p, artnet_build seq phys addr net f = Some p /\
+            artnet_handle_ports p net ports =
+              map (fun pb => if addr =? fst pb
+                             then R2 (RHandled (Some (if len f mod 2 =? 0 then f else f ++ [0])))
+                             else R2 RDropped) ports.
+Proof. intros. apply artnet_ports; try assumption. lia. Qed.
+Print Assumptions c07_artnet_ports.
+
+(* Art-Net transmission over time (seconds), unicast mode with the subscribed-node table or
+   always-broadcast: in any history of ArtPollReply arrivals and SendDMX calls in which every send
+   happens at most NODE_TIMEOUT (31) seconds after the latest reply of the receiving node, every
+   SendDMX produces a datagram for that node and the receiver ends up with the frame: the node is
+   never aged out while it keeps replying. *)
+Theorem c07_artnet_unicast_delivery : forall bcast phys addr net evs seq old,
+  addr < 256 -> net < 128 -> replies_cover None evs ->
+  an_run bcast phys addr net evs (None, seq) old = an_expect evs.
+Proof. intros. apply an_run_ok; try assumption. lia. Qed.
+Print Assumptions c07_artnet_unicast_delivery.
+
+(* E1.31 stream lifecycle with a priority that changes from frame to frame (any values 0..200, up or
+   down, same sender): every frame of the stream, and of a stream restarted after TerminateStream
+   (sent with any priority tprio), is delivered. *)
+Theorem c07_e131_stream_priorities : forall cid name u ip tprio fs1 fs2 old,
+  1 <= u -> u <= 65534 -> tprio <= 200 ->
+  Forall (fun pf => fst pf <= 200 /\ 1 <= len (snd pf) /\ len (snd pf) <= 512) fs1 ->
+  Forall (fun pf => fst pf <= 200 /\ 1 <= len (snd pf) /\ len (snd pf) <= 512) fs2 ->
+  exists t1 s1 pk t3 s3,
+    send_all_p cid name u ip fs1 None (fresh_rx old) = (map (fun pf => (true, Some (snd pf))) fs1, t1, s1) /\
+    tx_terminate cid name tprio u t1 = (pk, None) /\
+    send_all_p cid name u ip fs2 None (deliver_all u ip pk s1)
+      = (map (fun pf => (true, Some (snd pf))) fs2, t3, s3).
+Proof. exact stream_priorities. Qed.
+Print Assumptions c07_e131_stream_priorities.
+
 (* ---- non-vacuity and the pre-fix failures as concrete evaluations of the (fixed) model *)
 Definition ramp (n : nat) : list N := map (fun i => N.of_nat ((i * 7 + 3) mod 256)) (seq 0 n).
 (* 128 distinct slots: the unfixed encoder emitted the count byte 0x80 here *)
@@ -220,3 +259,9 @@ Example ex_multi_256 :
                    nth 300 obs (true, None) = (false, Some [1; 7])
   end.
 Proof. vm_compute. repeat split; reflexivity. Qed.
+(* a reply every 28 s keeps the node subscribed; without further replies the frame at t = 40 is suppressed *)
+Example ex_unicast :
+  replies_cover None [AReply 0; ASend 10 [1; 2]; AReply 28; ASend 50 [3; 4]; ASend 59 [5; 6]] /\
+  an_run false 0 0x12 3 [AReply 0; ASend 10 [1; 2]; ASend 40 [3; 4]] (None, 0) None
+    = [None; Some (true, Some [1; 2]); Some (false, Some [1; 2])].
+Proof. split; [cbn [replies_cover len length]; unfold AN_NODE_TIMEOUT, len; cbn [length]; repeat split; lia|vm_compute; reflexivity]. Qed.
